@@ -50,31 +50,94 @@ def freq_value(f_hz: Fraction, unit: str) -> float:
     raise ValueError(unit)
 
 
+def exact_in(ticks: int, K: int, dtype: str) -> bool:
+    """Is `ticks` of 360/K deg exactly representable in `dtype`?"""
+    v = Fraction(360 * ticks, K)
+    if dtype == 'int64':
+        return v.denominator == 1
+    if dtype == 'float32':
+        return Fraction(float(np.float32(float(v)))) == v
+    return Fraction(float(v)) == v
+
+
 def make_disk(K, slits, bp, ph, cw, f_hz: Fraction, aunit='deg', funit='Hz', order=None,
-              scale: float = 1.0):
+              scale: float = 1.0, *, bp_unit=None, ph_unit=None, adtype='float64', sdtype='float64',
+              fdtype='float64', layout='plain'):
     """Real DiskChopper for a model configuration; `scale` multiplies the frequency (used for the
-    in-phase tolerance probes only)."""
+    in-phase tolerance probes only).
+
+    How the *same* configuration is handed over (none of this changes which disk is described):
+      bp_unit, ph_unit  unit of beam position / phase when it differs from the unit of the slit edges
+      adtype            dtype of the slit edge arrays ('int64' / 'float32': only in deg, where the tick grid is exact)
+      sdtype            dtype of beam position and phase ('int64': only in deg on whole degrees)
+      fdtype            dtype of the frequency ('int64': the caller makes sure the value is whole in `funit`)
+      layout            'plain'    contiguous begin / end arrays
+                        'strided'  begin = edges[::2], end = edges[1::2] of one interleaved array
+                        'nexus'    DiskChopper.from_nexus with the interleaved array as slit_edges
+                        'nexus2'   DiskChopper.from_nexus with slit_begin / slit_end, slit_height and radius
+    """
     from scippneutron.chopper import DiskChopper
 
     order = list(range(len(slits))) if order is None else order
     begin = [angle_value(slits[i][0], K, aunit) for i in order]
     end = [angle_value(slits[i][1], K, aunit) for i in order]
-    sign = -1.0 if cw else 1.0
-    return DiskChopper(
-        axle_position=sc.vector([0.0, 0.0, 6.5], unit='m'),
-        frequency=sc.scalar(sign * freq_value(f_hz, funit) * scale, unit=funit),
-        beam_position=sc.scalar(angle_value(bp, K, aunit), unit=aunit),
-        phase=sc.scalar(angle_value(ph, K, aunit), unit=aunit),
-        slit_begin=sc.array(dims=['slit'], values=begin, unit=aunit, dtype='float64'),
-        slit_end=sc.array(dims=['slit'], values=end, unit=aunit, dtype='float64'),
-    )
+    sign = -1 if cw else 1
+    if adtype != 'float64':
+        if aunit != 'deg' or not all(exact_in(x, K, adtype) for s in slits for x in s):
+            raise AssertionError(f'slit edges are not exact in {adtype}')
+    if sdtype != 'float64':
+        if not (exact_in(bp, K, sdtype) and exact_in(ph, K, sdtype)) or 'rad' in (bp_unit or aunit, ph_unit or aunit):
+            raise AssertionError(f'beam position / phase are not exact in {sdtype}')
+    fval = sign * freq_value(f_hz, funit) * scale
+    if fdtype == 'int64':
+        if fval != int(fval) or scale != 1.0:
+            raise AssertionError('frequency is not a whole number in its unit')
+        fval = int(fval)
+
+    def scalar_angle(t, unit):
+        v = angle_value(t, K, unit)
+        return sc.scalar(int(v) if sdtype == 'int64' else v, unit=unit, dtype=sdtype)
+
+    frequency = sc.scalar(fval, unit=funit, dtype=fdtype)
+    beam_position = scalar_angle(bp, bp_unit or aunit)
+    phase = scalar_angle(ph, ph_unit or aunit)
+    axle = sc.vector([0.0, 0.0, 6.5], unit='m')
+    if layout in ('strided', 'nexus'):
+        inter = [x for pair in zip(begin, end) for x in pair]
+        edges = sc.array(dims=['slit'], values=inter, unit=aunit, dtype=adtype)
+        sb, se = edges[::2], edges[1::2]
+    else:
+        edges = None
+        sb = sc.array(dims=['slit'], values=begin, unit=aunit, dtype=adtype)
+        se = sc.array(dims=['slit'], values=end, unit=aunit, dtype=adtype)
+    if layout in ('nexus', 'nexus2'):
+        fields = {'position': axle, 'rotation_speed': frequency, 'beam_position': beam_position, 'phase': phase,
+                  'radius': sc.scalar(0.35, unit='m')}
+        if layout == 'nexus':
+            fields['slit_edges'] = edges
+        else:
+            fields['slit_begin'], fields['slit_end'] = sb, se
+            fields['slit_height'] = sc.scalar(0.1, unit='m')
+        return DiskChopper.from_nexus(fields)
+    return DiskChopper(axle_position=axle, frequency=frequency, beam_position=beam_position, phase=phase,
+                       slit_begin=sb, slit_end=se)
 
 
-def to_ticks(var: sc.Variable, K: int, f_hz: Fraction):
-    """(integer ticks, all within tolerance of the tick grid?) for a variable of times."""
-    secs = np.atleast_1d(var.to(unit='s', dtype='float64').values).astype('float64')
+# a tick count that TLC's JSON reader (32-bit integers) and the judge (loops over the covered span) can take
+MAX_TICKS = 10**6
+
+
+def to_ticks(var, K: int, f_hz: Fraction):
+    """(integer ticks, all within tolerance of the tick grid?) for a variable of times.
+
+    Anything that is not a finite time on the tick grid - not a Variable, not a time, non-finite, absurdly
+    large - gives (zeros, False): the judge then names it, the driver never crashes on it."""
+    try:
+        secs = np.asarray(var.to(unit='s', dtype='float64').values, dtype='float64').ravel()
+    except Exception:  # noqa: BLE001  (the implementation returned something that is not a time)
+        return [], False
     x = secs * float(K * abs(f_hz))
-    if not np.all(np.isfinite(x)):
+    if not np.all(np.isfinite(x)) or np.any(np.abs(x) > MAX_TICKS):
         return [0] * len(x), False
     r = np.rint(x)
     ok = bool(np.all(np.abs(x - r) <= TICK_TOL * K))
